@@ -299,6 +299,29 @@ func runC19(x *X) {
 				}
 			}
 		}
+		// decoration names are exact: a case variant of a listed name that is not itself listed is an unknown name
+		var variants []string
+		for _, n := range []string{"utf8-light", "utf8-heavy", "none", "ascii-simple"} {
+			variants = append(variants, strings.ToUpper(n), strings.Title(n), "texttable."+strings.ToUpper(n), "TextTable."+strings.Title(n))
+		}
+		for n := range registered {
+			if !strings.Contains(n, ".") && n != "" {
+				variants = append(variants, strings.ToUpper(n), strings.ToLower(n))
+			}
+		}
+		for _, v := range variants {
+			if c19Resolvable(v) {
+				continue
+			}
+			_, vo, ve, pn := render(v)
+			if pn {
+				return
+			}
+			x.Nontrivial("case-variant:" + v)
+			if ve == nil || vo != "" {
+				x.Fail("C19.default_and_unknown", append(tags, "unknown_name_rendered", "case_variant_of_a_decoration_name"), "%q is not a listed name (decoration names are matched exactly; only its case variant is listed), yet auto.New(%q) rendered (%d bytes, err %v)", v, v, len(vo), ve)
+			}
+		}
 		for _, v := range []string{"utf8", "utf8-", "utf8-heav", "ascii", "non"} {
 			if c19Resolvable(v) {
 				continue
